@@ -137,7 +137,9 @@ def a64_immediates():
         v.append((txt, ("fimm", "float")))
     for c in ("eq", "ne", "lt", "ge", "hi"):
         v.append((c, ("cond", c.upper())))
-    v.append((".L3", ("id", ".L3")))
+    # labels, also ones that start like a condition code or a register name
+    for name in (".L3", "loop", "next_block", "almost_done", "x_end", "lo_label", "ne.x"):
+        v.append((name, ("id", name)))
     return v
 
 
